@@ -160,12 +160,17 @@ class _Transform(ast.NodeTransformer):
         k = self.counters[-1]
         self.counters[-1] += 1
         key = (".".join(self.stack), k)
+        # names the ORIGINAL loop assigns / reads (nested loops under contract are rewritten below and would add their own
+        # re-binding assignments)
+        own = {n.id for n in ast.walk(node.target) if isinstance(n, ast.Name)} if isinstance(node, ast.For) else set()
+        assigned = _assigned_names(node)
+        loaded = {n.id for n in ast.walk(node) if isinstance(n, ast.Name) and isinstance(n.ctx, ast.Load)} - own
         self.generic_visit(node)
         if key not in self.loops:
             return node
         self.bound.add(key)
         lid = self.loops[key]
-        return _encode_loop(node, lid, self.fn_locals[-1] if getattr(self, "fn_locals", None) else set())
+        return _encode_loop(node, lid, self.fn_locals[-1] if getattr(self, "fn_locals", None) else set(), assigned, loaded)
 
     visit_While = _loop
     visit_For = _loop
@@ -199,7 +204,7 @@ def _back_edge(lid):
     return ast.Expr(value=_call("__pyvc_loop_back__", ast.Constant(lid), _locals()))
 
 
-def _encode_loop(node, lid, fn_locals=frozenset()):
+def _encode_loop(node, lid, fn_locals=frozenset(), assigned0=None, loaded0=None):
     """while/for with contract -> invariant encoding (see module docstring, T2)"""
     if node.orelse:
         raise BindingError("loop with else clause cannot carry a contract")
@@ -224,12 +229,14 @@ def _encode_loop(node, lid, fn_locals=frozenset()):
     # generic update through a helper that returns a tuple in the order of `__pyvc_loop_names__(lid)`.
     # names the body reads; the target of a `for` is bound by the loop itself before the body runs
     own = {n.id for n in ast.walk(node.target) if isinstance(n, ast.Name)} if isinstance(node, ast.For) else set()
-    loaded = sorted({n.id for n in ast.walk(node) if isinstance(n, ast.Name) and isinstance(n.ctx, ast.Load)} - own)
+    if loaded0 is None:
+        loaded0 = {n.id for n in ast.walk(node) if isinstance(n, ast.Name) and isinstance(n.ctx, ast.Load)} - own
+    loaded = sorted(n for n in loaded0 if not n.startswith("__pyvc"))
     enter = ast.Expr(value=_call("__pyvc_loop_enter__", ast.Constant(lid), _locals(),
                                  ast.List(elts=[ast.Constant(n) for n in loaded], ctx=ast.Load())))
-    names = _assigned_names(node) | (set(loaded) & set(fn_locals))
+    assigned = set(assigned0) if assigned0 is not None else _assigned_names(node)
+    names = assigned | (set(loaded) & set(fn_locals))
     hav = []
-    assigned = _assigned_names(node)
     for nm in sorted(names):
         hav.append(ast.Assign(
             targets=[ast.Name(id=nm, ctx=ast.Store())],
